@@ -245,7 +245,7 @@ pub fn property() -> Property {
     Property {
         id: "C15",
         level: "exploration",
-        rule: "histories as in C01 rich in deletions (plain content, nested subtrees, map overwrites, formatting) with forced GC (gc(None) or gc(Some(delete set))) injected on authors at generated points; the complete update set is then delivered under a generated schedule to a GC-enabled and a GC-disabled twin which are compared after every delivery (forced GC injected on the GC twin); authors with mixed GC settings are flushed and compared; every collected replica's full state (v1 and v2) is rebuilt into a fresh document; undo-gc: programs of tracked edits / undo / redo / reset with forced GC as a frequent step on one document, dump-sequence model of C12 (undo yields the previous distinct dump although GC ran in between).  Non-trivial = the GC twin really collected blocks / an undo follows a forced GC that follows an edit; distinct = distinct generated case".into(),
+        rule: "histories as in C01 rich in deletions (plain content, nested subtrees, map overwrites, formatting) with forced GC (gc(None) or gc(Some(delete set))) injected on authors at generated points; the complete update set is then delivered under a generated schedule to a GC-enabled and a GC-disabled twin (both with or both without automatic format clean-up, the library's default being with) which are compared after every delivery (forced GC injected on the GC twin); authors with mixed GC settings are flushed and compared; every collected replica's full state (v1 and v2) is rebuilt into a fresh document; undo-gc: programs of tracked edits / undo / redo / reset with forced GC as a frequent step on one document, dump-sequence model of C12 (undo yields the previous distinct dump although GC ran in between).  Non-trivial = the GC twin really collected blocks / an undo follows a forced GC that follows an edit; distinct = distinct generated case".into(),
         assumptions: vec!["equality is the canonical dump".into(), "the undo-gc part reuses the isolated undo model of C12 (same case type and oracle, other step weights)".into()],
         parts: vec![Box::new(Part(Twins)), Box::new(Part(UndoGc))],
     }
